@@ -6,6 +6,7 @@ from parglare import Parser
 from parglare import termui as t
 from parglare.common import dot_escape, position_context
 from parglare.common import replace_newlines as _
+from parglare.exceptions import LoopError
 from parglare.parser import REDUCE, SHIFT, Token, pos_to_line_col
 from parglare.tables import LRState
 from parglare.termui import a_print, h_print, prints
@@ -173,7 +174,12 @@ class GLRParser(Parser):
             # Return results
             forest = Forest(self)
             if self.debug:
-                a_print(f"*** {forest.solutions} successful parse(s).")
+                try:
+                    solutions = forest.solutions
+                except LoopError:
+                    # Cyclic grammars give forests with infinitely many trees.
+                    solutions = "Infinitely many"
+                a_print(f"*** {solutions} successful parse(s).")
 
             if self.clear_transient:
                 self._remove_transient_state()
